@@ -51,6 +51,22 @@ EXPLANATION += ' R4: the one frozen termination exception (the CP2K basis reader
 # --- end metadata batch 8
 
 
+def _derives_from(prog, cls, base):
+    seen, todo = set(), [cls]
+    while todo:
+        c = todo.pop()
+        if c is base:
+            return True
+        if c is None or c.qualname in seen:
+            continue
+        seen.add(c.qualname)
+        for b in c.node.bases:
+            r = prog.resolve_expr(None, c.module, b)
+            if r is not None and r[0] == "class":
+                todo.append(r[1])
+    return False
+
+
 def run(ctx):
     prog = ctx.prog
     ef = ExcFlow(prog)
@@ -650,8 +666,16 @@ def check_line_counter(ctx):
             continue
         for n in f.own_nodes():
             if isinstance(n, (ast.Assign, ast.AugAssign)):
+                flat = []
                 for t in (n.targets if isinstance(n, ast.Assign) else [n.target]):
-                    if isinstance(t, ast.Attribute) and t.attr == "lineno":
+                    flat.extend(x for x in ast.walk(t) if isinstance(x, ast.Attribute) and isinstance(x.ctx, ast.Store))
+                for t in flat:
+                    if t.attr != "lineno":
+                        continue
+                    # `self.lineno` in a method of another class is that object's own attribute (the error classes
+                    # keep the position they report), not the iterator's counter
+                    own = f.cls is not None and f.posparams and isinstance(t.value, ast.Name) and t.value.id == f.posparams[0] and not _derives_from(prog, f.cls, lit_cls)
+                    if not own:
                         ctx.violate("R6", "the line counter is written outside LineIterator", f, n)
 
 
@@ -775,19 +799,30 @@ def check_message_composition(ctx, rid):
         ctx.violate(rid, bad + ": the message of a LoadError no longer names the file / the last line read", interp if "_interpret" in bad else fmt, (interp if "_interpret" in bad else fmt).node, construct=bad[:170])
     else:
         ctx.ok(rid, f"_interpret_file_lineno on {len(rows)} kinds of file argument and _format_file_message on 4 argument combinations give `message (file:line)`", f"{um.relpath}:{interp.lineno}")
-    # the exception classes use exactly this composition and no subclass overrides it
+    # the exception classes use exactly this composition (evaluated: construct, then render) and no subclass overrides it
     init, strm = base.methods.get("__init__"), base.methods.get("__str__")
     okc = True
-    if init is None or not any(isinstance(x, ast.Call) and isinstance(x.func, ast.Name) and x.func.id == interp.name and [src_of(a) for a in x.args] == [init.posparams[2], init.posparams[3]] for x in init.own_nodes()):
-        okc = False
-        ctx.violate(rid, "BaseFileError.__init__ does not pass its file and lineno arguments to _interpret_file_lineno", relpath=um.relpath, function=base.qualname, node=base.node, construct="BaseFileError.__init__ composition")
-    elif not any(isinstance(x, ast.Assign) and isinstance(x.targets[0], ast.Tuple) and [src_of(t) for t in x.targets[0].elts] == ["self.filename", "self.lineno"] for x in init.own_nodes()):
-        okc = False
-        ctx.violate(rid, "BaseFileError.__init__ does not store the interpreted (filename, lineno) in self.filename, self.lineno", relpath=um.relpath, function=base.qualname, node=base.node, construct="BaseFileError.__init__ stores")
-    rets = [x for x in (strm.own_nodes() if strm is not None else []) if isinstance(x, ast.Return)]
-    if strm is None or len(rets) != 1 or not (isinstance(rets[0].value, ast.Call) and isinstance(rets[0].value.func, ast.Name) and rets[0].value.func.id == fmt.name and [src_of(a) for a in rets[0].value.args[1:]] == ["self.filename", "self.lineno"] and "super().__str__()" in src_of(rets[0].value.args[0])):
-        okc = False
-        ctx.violate(rid, "BaseFileError.__str__ is not _format_file_message(super().__str__(), self.filename, self.lineno)", relpath=um.relpath, function=base.qualname, node=base.node, construct="BaseFileError.__str__ composition")
+    if init is None or strm is None:
+        raise AnalysisError("BaseFileError.__init__ / __str__ not found")
+    for label, mk, lineno, want in [(r_[0], r_[1], r_[2], r_[3]) for r_ in rows if r_[3][0] != "raises"]:
+        ev = AccessorEval(prog, base)
+        ev.module = um
+        err = Rec(base)
+        try:
+            ev.run(init, err, dict(zip(init.posparams[1:], ["m", mk(), lineno])))
+            got_attrs = (err.fields.get("filename", "<unset>"), err.fields.get("lineno", "<unset>"))
+            ev = AccessorEval(prog, base)
+            ev.module = um
+            text = ev.run(strm, err, {})
+        except Raised as exc:
+            got_attrs, text = ("raises", exc.args[0]), None
+        except NotSymbolic as exc:
+            raise AnalysisError(f"BaseFileError is outside the evaluation whitelist: {exc}") from exc
+        want_text = "m" if want[0] is None else (f"m ({want[0]})" if want[1] is None else f"m ({want[0]}:{want[1]})")
+        if got_attrs != want or text != want_text:
+            okc = False
+            ctx.violate(rid, f"BaseFileError('m', {label}): attributes (filename, lineno) = {got_attrs!r} and text {text!r}; expected {want!r} and {want_text!r}", relpath=um.relpath, function=base.qualname, node=base.node, construct=f"BaseFileError composition: {label}")
+            break
     for ci in prog.classes.values() if hasattr(prog, "classes") else []:
         pass
     subs = [c for c in um.classes.values() if c is not base and any(src_of(b) in ("BaseFileError",) for b in c.node.bases)] if hasattr(um, "classes") else []
